@@ -220,7 +220,9 @@ def run(run_, ctx):
         ("S", "ser_storage", None, "vector / size storage"),
         ("S", "ser_entry", None, "encode entry point (plain / COBS / CRC): must not add or drop capacity checks of its own"),
         ("S", "ser_cobs", lambda k: k.endswith("::try_new"), "COBS constructor"),
+        ("SW", "ser_writer", None, "writer storage (a writer over a fixed slice is fixed storage: write_all or error)"),
     ])
+    run_.floor("SW", 8)
     run_.floor("S", 61)
     F = ctx.facts("A")
     pc = F.crate("postcard")
